@@ -396,6 +396,9 @@ class Interp:
             return list(enumerate(self.iterate(args[0])))
         if name == 'range' and all(isinstance(a, int) for a in args) and 1 <= len(args) <= 3:
             return list(range(*args))
+        if name in ('any', 'all') and len(args) == 1:
+            vals = [self.truth(x) for x in self.iterate(args[0])]
+            return any(vals) if name == 'any' else all(vals)
         if name == 'repr' and len(args) == 1:
             return repr(args[0])
         if name == 'setattr' and len(args) == 3:
